@@ -238,8 +238,17 @@ def check_array(out, facts):
     f2 = facts.impl_method('Decode', '[T; N]', 'decode')
     if f2:
         t3, v3, _ = wire.infer_decoder_fn(facts, f2)
-        seq = [e for e in events(t3) if e[0] in ('dec', '?', 'OWN')]
-        ok = [(e[0], e[1] if e[0] == 'OWN' else None) for e in seq] == [('dec', None), ('?', None), ('OWN', 'assume_init')] and seq[0][3] == 'decode_into' and seq[0][1] == '[T; N]'
+        ok = True
+        n_success = 0
+        for p in paths(t3):
+            seq = [e for e in p if e[0] in ('dec', '?OK', '?ERR', 'ERR', 'OWN')]
+            if seq and seq[-1][0] in ('?ERR', 'ERR'):
+                ok = ok and not any(e[0] == 'OWN' for e in seq)
+                continue
+            n_success += 1
+            ok = ok and [(e[0], e[1] if e[0] == 'OWN' else None) for e in seq] == [('dec', None), ('?OK', None), ('OWN', 'assume_init')] \
+                and seq[0][3] == 'decode_into' and seq[0][1] == '[T; N]'
+        ok = ok and n_success >= 1
         out.ob('R10.4', '[T; N]::decode assume_init [%s]' % cfg, ok, 'assume_init is not dominated by a successful decode_into of the whole array: ' + sym.tstr(t3), f2['loc'])
 
 
@@ -324,11 +333,21 @@ def check_default_decode_into(out, facts):
         out.fail('R10.4', 'Decode::decode_into default [%s]' % cfg, 'not found', '-')
         return
     t, v, _ = wire.infer_decoder_fn(facts, d)
-    seq = [e for e in events(t) if e[0] in ('dec', '?', 'MUTCALL', 'OWN')]
-    names = [(e[0], e[1] if e[0] in ('MUTCALL', 'OWN') else None) for e in seq]
-    ok = names == [('dec', None), ('?', None), ('MUTCALL', 'write'), ('OWN', 'assert_decoding_finished')]
-    if ok:
-        ok = sym.vstr(seq[2][3][0]) == 'dst' and sym.vstr(seq[2][3][1]) == 'decoded#%s:Self' % seq[0][2]
+    # path by path: a write under a condition is not a write
+    ok = True
+    n_success = 0
+    for p in paths(t):
+        seq = [e for e in p if e[0] in ('dec', '?OK', '?ERR', 'ERR', 'MUTCALL', 'OWN')]
+        names = [(e[0], e[1] if e[0] in ('MUTCALL', 'OWN') else None) for e in seq]
+        if names and names[-1][0] in ('?ERR', 'ERR'):
+            ok = ok and not any(e[0] == 'OWN' for e in seq)
+            continue
+        n_success += 1
+        if names != [('dec', None), ('?OK', None), ('MUTCALL', 'write'), ('OWN', 'assert_decoding_finished')]:
+            ok = False
+        elif not (sym.vstr(seq[2][3][0]) == 'dst' and sym.vstr(seq[2][3][1]) == 'decoded#%s:Self' % seq[0][2]):
+            ok = False
+    ok = ok and n_success >= 1
     out.ob('R10.4', 'Decode::decode_into default [%s]' % cfg, ok, 'DecodeFinished is not dominated by dst.write(decoded value): ' + sym.tstr(t), d['loc'])
     # every assert_decoding_finished / assume_init* in the crate is in one of the audited functions
     allowed = {'Decode::decode_into (default)', '<[T; N] as Decode>::decode_into', '<[T; N] as Decode>::decode',
